@@ -100,4 +100,22 @@ def optionTable : List (Str × CType) :=
 def resolveAll (sources : List Source) : Except Str (List (Str × Option CVal)) :=
   optionTable.mapM (fun (k, ty) => do let v ← resolveOpt sources k ty; pure (k, v))
 
+def filtersKey : Str := lit "input.exclude_filters"
+
+def isListVal : CVal → Bool
+  | .list _ => true
+  | _ => false
+
+/-- the loop of `main` over `settings["input"]["exclude_filters"].resolve()` (repair D13): the patterns are the union over
+    *all* sources, so a value that is not a list is rejected in whichever source it stands — not only in the one that wins -/
+def filtersWellTyped (sources : List Source) : Bool := (sources.filterMap (·.get filtersKey)).all isListVal
+
+/-- `main` up to the call of `document`: template validation of every option (first failure wins), then the per-source check
+    of the exclude filters, then their concatenation over the command line, the `-s` file and the user file -/
+def resolveMain (sources : List Source) : Except Str (List (Str × Option CVal) × List CVal) :=
+  match resolveAll sources with
+  | .error k => .error k
+  | .ok vals =>
+    if filtersWellTyped sources then .ok (vals, allContents (sources.take 3) filtersKey) else .error filtersKey
+
 end Cminx
